@@ -86,6 +86,7 @@ def self_validate(mod, prop, tier, base: Ctx, budget_s: float):
     except (OSError, PermissionError):
         results = [_one_variant(j) for j in jobs]
     results.append(_global_neutral(prop, base_bad))
+    results.append(_global_neutral(prop, base_bad, which="kw"))
     for name, kind, state, payload, expect in results:
         if state == "inapplicable":
             res["inapplicable"] += 1
@@ -118,16 +119,22 @@ def self_validate(mod, prop, tier, base: Ctx, budget_s: float):
     return res
 
 
-def _global_neutral(prop, base_bad):
-    """Whole-package alpha-renaming of locals + re-emission of every module: must change no verdict."""
+def _global_neutral(prop, base_bad, which="alpha"):
+    """Whole-package behaviour-preserving rewrites (alpha-renaming of locals and closures with re-emission of
+    every module; keyword arguments of side-effect-free calls reversed): must change no verdict."""
     from .model import repo_root
-    from .neutral import alpha_overlay
+    from .neutral import alpha_overlay, kwreverse_overlay
 
     mod = load_rules(prop)
-    name = "every local variable of the package renamed, modules re-emitted without comments/layout"
+    name = "every local variable and closure of the package renamed, modules re-emitted without comments/layout" if which == "alpha" else \
+        "keyword arguments reversed in every call with side-effect-free keyword values"
     try:
-        overlay, n_f, n_l = alpha_overlay(repo_root())
-        name += f" ({n_l} locals in {n_f} functions)"
+        if which == "alpha":
+            overlay, n_f, n_l = alpha_overlay(repo_root())
+            name += f" ({n_l} names in {n_f} functions)"
+        else:
+            overlay, n_c = kwreverse_overlay(repo_root())
+            name += f" ({n_c} calls)"
         v = run_rules(mod, prop, "quick", Repo(overlay=overlay))
         new_ref = [(f.rule, f.key) for f in v.findings if f.verdict == REFUTED and f.key not in base_bad]
         new_unk = [(f.rule, f.key) for f in v.findings if f.verdict == UNKNOWN and f.key not in base_bad]
